@@ -50,7 +50,8 @@ CONSERVING = {
     ("uniswap", "collect_fee"), ("uniswap", "remove_all_liquidity"),
     ("aave", "supply"), ("aave", "withdraw"), ("aave", "borrow"), ("aave", "repay"), ("aave", "repay_with_collateral"),
 }
-FEE_SWAPS = {("uniswap", "buy"), ("uniswap", "sell"), ("uniswap", "swap"), ("squeeth", "buy_squeeth"), ("squeeth", "sell_squeeth")}
+FEE_SWAPS = {("uniswap", "buy"), ("uniswap", "sell"), ("uniswap", "swap"), ("squeeth", "buy_squeeth"), ("squeeth", "sell_squeeth"),
+             ("broker", "swap_by_from"), ("broker", "swap_by_to")}
 
 
 def plan(tier, seed):
@@ -327,6 +328,12 @@ def field_family(path):
 def swap_fee_value(op, ret, fz):
     """value in quote terms of the fee the swap reported, or None when it cannot be identified."""
     try:
+        if op.market == "broker":
+            # the wallet's own swap reports its fee in the action record, in units of the token paid
+            a = fz.actions[-1]
+            if type(a).__name__ != "BrokerSwapAction":
+                return None
+            return Decimal(a.fee) * Decimal(str(fz.prices[a.from_token.name]))
         if op.market == "uniswap":
             um = [m for m in fz.markets if m.market_info.type.name == "uniswap_v3"][0]
         else:
